@@ -787,7 +787,7 @@ class C16(Check):
             # the containers a caller hands in are not always fresh: the in-membership one (never validated) in other
             # shapes, some with exactly N*K elements; the label vector already filled; several realizations
             if k % 3 == 0:
-                rc.vshape, rc.lprior, rc.r = rng.choice([1, 2, 3, 4]), rng.choice([0, 1, 2, 3]), rng.choice([1, 2, 3])
+                rc.vshape, rc.lprior, rc.r = rng.choice([1, 2, 3, 4]), rng.choice([0, 1, 2, 3, 4]), rng.choice([1, 2, 3])
             if k % 6 == 1:
                 # the out-membership container is validated by its element count only: N*K elements in another shape
                 rc.ushape = rng.choice([1, 2, 3])
